@@ -115,6 +115,9 @@ def _tainted(body, e, tparams, depth=0):
     return False
 
 
+SIZE_API = ("with_capacity", "try_with_capacity", "reserve", "try_reserve", "shrink_to", "try_shrink_to")
+
+
 def rule_size_taint(ctx, rule="C06-taint"):
     F = ctx.F
     # seeds: usize params of the public API named capacity/additional/min_capacity
@@ -124,7 +127,9 @@ def rule_size_taint(ctx, rule="C06-taint"):
         if not fn or not fn.get("exported"):
             continue
         for i in range(1, b.arg_count + 1):
-            if b.local_ty(i) == "usize" and (b.local_name(i) in TAINT_PARAM_NAMES):
+            # the public size arguments: by the API function they belong to (public names are part of
+            # the interface), or by their conventional parameter name
+            if b.local_ty(i) == "usize" and (path.rsplit("::", 1)[-1] in SIZE_API or b.local_name(i) in TAINT_PARAM_NAMES):
                 tainted.setdefault(path, set()).add(i)
     seeds = sum(len(v) for v in tainted.values())
     ctx.need(rule, "crate", "seed-params", seeds >= 6, "only %d public size parameters found (capacity/additional/min_capacity)" % seeds, how="%d public size parameters" % seeds)
